@@ -794,6 +794,7 @@ func (c *compiler) VisitCharLit(e *ast.CharLit) ast.VisitResult {
 // so we need to do some work here
 func (c *compiler) VisitStringLit(e *ast.StringLit) ast.VisitResult {
 	constStr := c.mod.NewGlobalDef("", irutil.NewCString(e.Value))
+	constStr.Linkage = enum.LinkageInternal // unnamed and local to the module (modules compiled on their own must not clash)
 	// call the ddp-runtime function to create the ddpstring
 	c.commentNode(c.cbb, e, constStr.Name())
 	dest := c.NewAlloca(c.ddpstring.typ)
